@@ -319,7 +319,7 @@ func checkApplyGuard(r *Run, k *kvCtx, rule string) {
 		}
 		// an apply inside a package-local helper that merely receives the writer and the
 		// operation is judged where the helper is called
-		if h := fn.Top(); h.Decl != nil && wObj != nil && opObj != nil {
+		if h := fn.Top(); h.Decl != nil && wObj != nil && opObj != nil && len(CallsIn(h, func(o types.Object, _ *ast.CallExpr) bool { return IsFunc(o, k.superF) })) == 0 {
 			wi, oi := -1, -1
 			for i := 0; i < 8; i++ {
 				po := paramObj(h, i)
